@@ -186,7 +186,9 @@ func (workerPoolSelf *DefaultWorkerPool) generateWorkerWithMaximum(maximum int) 
 	go func() {
 		// Recover & Recycle
 		defer func() {
+			diedFromPanic := false
 			if panic := recover(); panic != nil {
+				diedFromPanic = true
 				if handler := workerPoolSelf.panicHandler; handler != nil {
 					handler(panic)
 				}
@@ -200,6 +202,10 @@ func (workerPoolSelf *DefaultWorkerPool) generateWorkerWithMaximum(maximum int) 
 			}
 			verifPoint("wp.worker.exit.post", workerPoolSelf)
 			workerPoolSelf.lock.Unlock()
+			if diedFromPanic {
+				// The job took its worker down: let the spawn loop replace it, or queued jobs wait for the next Schedule
+				workerPoolSelf.spawnWorkerCh.Offer(1)
+			}
 		}()
 
 		// Do Jobs
